@@ -126,9 +126,11 @@ func extractC08(c *ctx) (Facts, error) {
 		facts["valFromCtx_reads_param_key"] = strings.Contains(s, "ctx.Value(key).(string)") && strings.Contains(s, `return ""`)
 	}
 
-	// ---- addHandlerContext: for i, msg := range messages { ctx := msg.Context(); if h.F != "" { ctx = context.WithValue(ctx, K, h.F) } …; messages[i].SetContext(ctx) }
+	// ---- addHandlerContext: for i, msg := range messages { ctx := msg.Context(); ctx = context.WithValue(ctx, K, h.F) …; messages[i].SetContext(ctx) }
+	// (a statement may be wrapped in `if h.G != "" { … }` – the shape before fix 5846d09 – and is then printed with its guard)
 	var sets []string
 	setsOK := false
+	unconditional := 0
 	if fd := get(rel, "handler", "addHandlerContext"); fd != nil && len(fd.Body.List) == 1 {
 		recv := fd.Recv.List[0].Names[0].Name
 		if rs, ok := fd.Body.List[0].(*ast.RangeStmt); ok && rs.Key != nil && rs.Value != nil && len(fd.Type.Params.List) == 1 &&
@@ -139,25 +141,39 @@ func extractC08(c *ctx) (Facts, error) {
 				(c.src(body[len(body)-1]) == param+"["+idx+"].SetContext(ctx)" || c.src(body[len(body)-1]) == val+".SetContext(ctx)")
 			if okShape {
 				setsOK = true
+				// ctx = context.WithValue(ctx, K, h.F)  -> (field, key value)
+				withValue := func(st ast.Stmt) (string, string, bool) {
+					as, ok := st.(*ast.AssignStmt)
+					if !ok || as.Tok != token.ASSIGN || len(as.Lhs) != 1 || len(as.Rhs) != 1 || c.src(as.Lhs[0]) != "ctx" {
+						return "", "", false
+					}
+					ce, ok := as.Rhs[0].(*ast.CallExpr)
+					if !ok || c.src(ce.Fun) != "context.WithValue" || len(ce.Args) != 3 || c.src(ce.Args[0]) != "ctx" ||
+						!strings.HasPrefix(c.src(ce.Args[2]), recv+".") {
+						return "", "", false
+					}
+					kv, ok := keyVal[c.src(ce.Args[1])]
+					if !ok {
+						return "", "", false
+					}
+					return strings.TrimPrefix(c.src(ce.Args[2]), recv+"."), kv, true
+				}
 				for _, st := range body[1 : len(body)-1] {
 					entry := ""
-					if is, ok := st.(*ast.IfStmt); ok && is.Init == nil && is.Else == nil && len(is.Body.List) == 1 {
+					if f, kv, ok := withValue(st); ok {
+						unconditional++
+						entry = fmt.Sprintf("⟨%s, none, %s⟩", c08Fld(f), leanStr(kv))
+					} else if is, ok := st.(*ast.IfStmt); ok && is.Init == nil && is.Else == nil && len(is.Body.List) == 1 {
 						if be, ok := is.Cond.(*ast.BinaryExpr); ok && be.Op == token.NEQ && c.src(be.Y) == `""` && strings.HasPrefix(c.src(be.X), recv+".") {
 							guard := strings.TrimPrefix(c.src(be.X), recv+".")
-							if as, ok := is.Body.List[0].(*ast.AssignStmt); ok && as.Tok == token.ASSIGN && c.src(as.Lhs[0]) == "ctx" {
-								if ce, ok := as.Rhs[0].(*ast.CallExpr); ok && c.src(ce.Fun) == "context.WithValue" && len(ce.Args) == 3 &&
-									c.src(ce.Args[0]) == "ctx" && strings.HasPrefix(c.src(ce.Args[2]), recv+".") {
-									k := c.src(ce.Args[1])
-									if kv, ok := keyVal[k]; ok {
-										entry = fmt.Sprintf("⟨%s, %s, %s⟩", c08Fld(strings.TrimPrefix(c.src(ce.Args[2]), recv+".")), c08Fld(guard), leanStr(kv))
-									}
-								}
+							if f, kv, ok := withValue(is.Body.List[0]); ok {
+								entry = fmt.Sprintf("⟨%s, some %s, %s⟩", c08Fld(f), c08Fld(guard), leanStr(kv))
 							}
 						}
 					}
 					if entry == "" {
 						setsOK = false
-						entry = fmt.Sprintf("⟨.other %s, .other \"?\", \"?\"⟩", leanStr(c.src(st)))
+						entry = fmt.Sprintf("⟨.other %s, none, \"?\"⟩", leanStr(c.src(st)))
 					}
 					sets = append(sets, entry)
 				}
@@ -166,6 +182,7 @@ func extractC08(c *ctx) (Facts, error) {
 	}
 	facts["addHandlerContext_shape_recognised"] = setsOK
 	facts["addHandlerContext_set_statements"] = len(sets)
+	facts["addHandlerContext_unconditional_sets"] = unconditional // fix 5846d09: an empty value must hide a stale one
 
 	// ---- AddHandler stores what it is given
 	if fd := get(rel, "Router", "AddHandler"); fd != nil {
